@@ -66,6 +66,7 @@ def conc_leg(c, wd, tier, seed, prop=PROP, n=None):
         c.add("client_calls", st["calls"])
         c.add("client_threads", st["clients"])
         c.add("sessions", st["sessions"])
+        c.add("distinct_statements", st.get("distinct_statements", 0))
         if st.get("hung"):
             p = vlib.save_replay(prop, "conc-%d-hang.ndjson" % s, tp)
             c.violation("a client thread did not return within the watchdog limit (deadlock or lost worker)", p)
@@ -91,8 +92,9 @@ def run(tier, seed):
     model_check(c, tier)
     conc_leg(c, wd, tier, seed)
     vlib.report_known(c, PROP)
-    c.cov["rule"] = "non-trivial = calls made while at least one other client thread was running"
-    c.cov["distinct_nontrivial"] = c.cov.get("client_calls", 0)
+    c.cov["rule"] = "evaluations = calls made by client threads while other client threads were running; non-trivial = distinct statement texts among them (per run)"
+    c.cov["distinct_nontrivial"] = c.cov.get("distinct_statements", 0)
+    c.cov["evaluations"] = c.cov.get("client_calls", 0)
     shutil.rmtree(wd, ignore_errors=True)
     return c.finish()
 
